@@ -102,6 +102,7 @@ type patternItem struct {
 }
 
 var errInvalidPattern = errors.New("malformed pattern")
+var errMissingFrontierSet = errors.New("missing '[' after '%f' in pattern")
 var errUnfinishedCapture = errors.New("unfinished capture")
 var errInvalidPatternCapture = errors.New("invalid pattern capture")
 var errPatternTooComplex = errors.New("pattern too complex")
